@@ -75,14 +75,21 @@ def run_shard(check_class, tier, seed, shard, nshards, triage=False):
     for key, violation in observed.items():
         if any(core.key_matches(entry_key, key) for entry_key in open_keys):
             continue
-        try:
-            with core.case_time_zone(check, violation.case):
-                again = check.judge(violation.case)
-        except Exception:  # pylint: disable=broad-except
-            again = []
-        if any(v.key == key for v in again):
+        # a key counts once it has been observed a second time. The library draws from the process-wide RNG in a few places
+        # (default cookies, paddings), so a failure that depends on the draw needs more than one further attempt to show again
+        again_seen = False
+        for _ in range(8):
+            try:
+                with core.case_time_zone(check, violation.case):
+                    again = check.judge(violation.case)
+            except Exception:  # pylint: disable=broad-except
+                again = []
+            if any(v.key == key for v in again):
+                again_seen = True
+                break
+        if again_seen:
             violations.append(violation.as_dict())
-        elif confirmed_in_fresh_process(check, violation):
+        elif confirmed_in_fresh_process(check, violation) or confirmed_in_fresh_process(check, violation):
             # fires once per process (state left behind in a class or module): reproducible from a fresh interpreter only
             violations.append(violation.as_dict())
         else:
